@@ -1273,10 +1273,21 @@ class ManifestRecursiveLoader:
                     ie = ManifestEntryIGNORE(ip)
                     iep = os.path.join(relpath, ip)
 
-                    if self.find_path_entry(iep):
-                        raise NotImplementedError(
-                            'Need to remove old parent entry for '
-                            'now-ignored path')
+                    old = self.find_path_entry(iep)
+                    while old is not None and old.tag != 'IGNORE':
+                        # the path is ignored from now on: drop its
+                        # entry from the parent Manifest
+                        entry_dict.pop(iep, None)
+                        for ompath, odir, om in (
+                                self._iter_manifests_for_path(iep)):
+                            if any(x is old for x in om.entries):
+                                om.entries = [x for x in om.entries
+                                              if x is not old]
+                                self.updated_manifests.add(ompath)
+                        old = self.find_path_entry(iep)
+                    if old is not None:
+                        # already ignored by a parent Manifest
+                        continue
 
                     m.entries.append(ie)
                     new_ignore_paths.append(iep)
